@@ -17,7 +17,7 @@ func expWatchdog() time.Duration { return 20 * time.Second }
 
 // ---- C04: expansion terminates without crashing ----
 
-var idFlavours = []string{"none", "absolute", "relative-file", "relative-dir", "fragment"}
+var idFlavours = []string{"none", "absolute", "relative-file", "relative-dir", "fragment", "unparseable"}
 
 // withIDs sprinkles `id` members of one flavour over the definitions of the world's documents.
 func withIDs(c *Ctx, w *refgraph.World, flavour string) *refgraph.World {
@@ -50,6 +50,9 @@ func withIDs(c *Ctx, w *refgraph.World, flavour string) *refgraph.World {
 				id = fmt.Sprintf("sub%d/", n)
 			case "fragment":
 				id = fmt.Sprintf("#s%d", n)
+			case "unparseable":
+				// ids that are no URI at all (the library warns and ignores them): with and without a file:// prefix
+				id = []string{"file:///schemas/100%/node.json", "file:///x/%zz.json", "http://[::1", "\x7f\x9a", "%", "file://%"}[n%6]
 			}
 			defs = defs.Set(m.K, m.V.Set("id", wire.StrV(id)))
 		}
@@ -149,7 +152,7 @@ func c04RootForms(c *Ctx) {
 }
 
 func runC04(c *Ctx) {
-	c.Res.Rule = "random reference graphs (8 families: self loops, mutual and nested cycles through every schema keyword, cycles through parameters / responses / path items, cycles across documents) x id flavours {none, absolute, relative file, relative directory, fragment} x 0-2 injected faults (dangling or ill-typed targets, refused documents) x all four combinations of SkipSchemas and ContinueOnError plus EVERY reference graph on up to 3 nodes of one kind (schemas as aliases and under keywords, parameters, responses, path items; self loops, 2- and 3-cycles, chains) x six spelling classes of the root location (file, http, upper-case host, explicit default ports) x option combinations; x entry points {ExpandSpec, ExpandSchemaWithBasePath, ExpandSchema, ExpandParameterWithRoot, ExpandResponseWithRoot, ExpandParameter, ExpandResponse}; each call under a 20 s watchdog with panics recovered; oracle: a result or an error, never a panic or a hang, at most one loader request per document; the model's expander on the abstracted world must not run out of its proved fuel bound; non-trivial = cyclic graph or fault present; distinct by (world, ids, faults, options, entry)"
+	c.Res.Rule = "random reference graphs (8 families: self loops, mutual and nested cycles through every schema keyword, cycles through parameters / responses / path items, cycles across documents) x id flavours {none, absolute, relative file, relative directory, fragment, not a URI} x 0-2 injected faults (dangling or ill-typed targets, refused documents) x all four combinations of SkipSchemas and ContinueOnError plus EVERY reference graph on up to 3 nodes of one kind (schemas as aliases and under keywords, parameters, responses, path items; self loops, 2- and 3-cycles, chains) x six spelling classes of the root location (file, http, upper-case host, explicit default ports) x option combinations; x entry points {ExpandSpec, ExpandSchemaWithBasePath, ExpandSchema, ExpandParameterWithRoot, ExpandResponseWithRoot, ExpandParameter, ExpandResponse}; each call under a 20 s watchdog with panics recovered; oracle: a result or an error, never a panic or a hang, at most one loader request per document; the model's expander on the abstracted world must not run out of its proved fuel bound; non-trivial = cyclic graph or fault present; distinct by (world, ids, faults, options, entry)"
 	n := c.N(240, 6000)
 	fams := families(c.Thorough())
 	corpusC04(c)
